@@ -101,6 +101,16 @@ def r_chain(E):
                 elif upper is not None and lower is None:
                     ok = False      # `x not in seq[:index]` keeps the FIRST occurrence
         if ok is None:
+            # seen-set idiom: `if x not in seen: seen.add(x); out.append(..)` keeps the FIRST occurrence when the chain
+            # is walked forwards, the last one when it is walked through reversed(...) and reversed back
+            for loop in [n for n in ast.walk(fn) if isinstance(n, ast.For)]:
+                grows = [c for c in _calls(loop) if isinstance(c.func, ast.Attribute) and c.func.attr in ("add", "append")]
+                tests = [n for n in ast.walk(loop) if isinstance(n, ast.Compare) and isinstance(n.ops[0], ast.NotIn)]
+                seen_names = {norm(c.func.value) for c in grows}
+                if tests and any(norm(t.comparators[0]) in seen_names for t in tests):
+                    backwards = isinstance(loop.iter, ast.Call) and norm(loop.iter.func) == "reversed" or "[::-1]" in norm(loop.iter)
+                    ok = bool(backwards)
+        if ok is None:
             res.undecided.append(f"{q}: de-duplication test not recognised")
         elif not ok:
             res.findings.append(Finding(
@@ -497,4 +507,140 @@ def r_accum(E):
                     elif len(res.samples) < 6:
                         res.samples.append({"function": q, "accumulator": v, "update": norm(st)[:70]})
     res.floor = 12
+    return res
+
+
+# ---------------------------------------------------------------------------------------------- R-PAREN (C07)
+OPS = ["+", "-", "*", "/"]
+# parentheses that the displayed formula needs so that re-reading it gives the recorded tree
+NEEDS = {("/", "right"): {"+", "-", "*", "/"}, ("/", "left"): {"+", "-"}, ("*", "left"): {"+", "-"},
+         ("*", "right"): {"+", "-"}, ("-", "right"): {"+", "-"}}
+
+
+def _eval_paren_cond(test, side_index, child_op):
+    """evaluate the condition under which a parenthesis flag is set, for a child sub-expression whose operator is
+    child_op (the child is a tuple). Returns True/False/None (not understood)."""
+    if isinstance(test, ast.BoolOp):
+        vals = [_eval_paren_cond(v, side_index, child_op) for v in test.values]
+        if None in vals:
+            return None
+        return all(vals) if isinstance(test.op, ast.And) else any(vals)
+    if isinstance(test, ast.Compare) and len(test.ops) == 1:
+        l, r = norm(test.left), test.comparators[0]
+        if l == f"type(tuple_element[{side_index}])" and norm(r) == "tuple":
+            return isinstance(test.ops[0], ast.Eq)
+        if l == f"tuple_element[{side_index}][1]":
+            if isinstance(r, ast.Constant):
+                eq = child_op == r.value
+                return eq if isinstance(test.ops[0], ast.Eq) else (not eq if isinstance(test.ops[0], ast.NotEq) else None)
+            if isinstance(r, (ast.List, ast.Tuple, ast.Set)):
+                vals = {e.value for e in r.elts if isinstance(e, ast.Constant)}
+                if isinstance(test.ops[0], ast.In):
+                    return child_op in vals
+                if isinstance(test.ops[0], ast.NotIn):
+                    return child_op not in vals
+    return None
+
+
+@rule("R-PAREN")
+def r_paren(E):
+    pm = E.pm
+    res = RuleResult("R-PAREN", "explain() parenthesises a sub-expression wherever operator precedence requires it, so that "
+                                "the displayed formula denotes the recorded operation tree (a / (b * c) is not shown as "
+                                "a / b * c)")
+    rel, fn = pm.find_function(EB, "ExplainableObject.print_tuple_element")
+    branches = {}
+    for n in ast.walk(fn):
+        if isinstance(n, ast.If) and isinstance(n.test, ast.Compare) and norm(n.test.left) == "tuple_element[1]":
+            ops = []
+            c = n.test.comparators[0]
+            if isinstance(n.test.ops[0], ast.Eq) and isinstance(c, ast.Constant):
+                ops = [c.value]
+            elif isinstance(n.test.ops[0], ast.In) and isinstance(c, (ast.List, ast.Tuple, ast.Set)):
+                ops = [e.value for e in c.elts if isinstance(e, ast.Constant)]
+            for o in ops:
+                branches.setdefault(o, n)
+    if not branches:
+        res.undecided.append("print_tuple_element: operator branches not found")
+        return res
+    for (op, side), need in sorted(NEEDS.items()):
+        br = branches.get(op)
+        idx = 0 if side == "left" else 2
+        flag = f"{side}_parenthesis"
+        for child in sorted(need):
+            res.instances += 1
+            if br is None:
+                res.findings.append(Finding("R-PAREN", f"{op} {side} {child}", f"print_tuple_element has no branch for "
+                                            f"operator {op!r}", rel, fn.lineno, fn.name))
+                continue
+            setters = [s for s in br.body if isinstance(s, ast.If) and any(
+                isinstance(a, ast.Assign) and norm(a.targets[0]) == flag and norm(a.value) == "True" for a in s.body)]
+            verdicts = [_eval_paren_cond(s.test, idx, child) for s in setters]
+            if any(v is None for v in verdicts):
+                res.undecided.append(f"print_tuple_element: condition of {flag} under {op!r} not understood")
+                continue
+            if not any(verdicts):
+                a, b = ("(x %s y) %s z" % (child, op), "x %s y %s z" % (child, op)) if side == "left" else \
+                       ("x %s (y %s z)" % (op, child), "x %s y %s z" % (op, child))
+                res.findings.append(Finding(
+                    "R-PAREN", f"{op} {side} operand with {child}",
+                    f"explain(): under operator {op!r} a {side} operand computed with {child!r} is printed without "
+                    f"parentheses: the recorded `{a}` is displayed as `{b}`, which re-evaluates to another value", rel,
+                    br.lineno, fn.name))
+            elif len(res.samples) < 4:
+                res.samples.append({"operator": op, "operand": side, "child_operator": child, "verdict": "parenthesised"})
+    res.floor = 12
+    return res
+
+
+# ---------------------------------------------------------------------------------------------- R-UNITS (C09)
+@rule("R-UNITS")
+def r_units(E):
+    import os
+    import re
+    pm = E.pm
+    res = RuleResult("R-UNITS", "the custom units that stand for distinct physical resources (cpu_core, gpu) each define "
+                                "their own base dimension, so that mixing them raises instead of yielding a number")
+    path = os.path.join(pm.root, "constants", "custom_units.txt")
+    rel = "efootprint/constants/custom_units.txt"
+    if not os.path.exists(path):
+        raise AnalysisError("custom_units.txt vanished")
+    defs = {}
+    for i, line in enumerate(open(path).read().splitlines(), 1):
+        line = line.split("#")[0].strip()
+        if not line or "=" not in line:
+            continue
+        name, rhs = [x.strip() for x in line.split("=", 1)]
+        defs[name] = (rhs, i)
+    # units used in the code as resource kinds
+    used = set()
+    for mod, (r2, tree, src) in pm.modules.items():
+        for n in ast.walk(tree):
+            if isinstance(n, ast.Attribute) and isinstance(n.value, ast.Name) and n.value.id == "u" and n.attr in defs:
+                used.add(n.attr)
+    dims = {}
+    for name in sorted(used | {"cpu_core", "gpu"}):
+        res.instances += 1
+        if name not in defs:
+            res.findings.append(Finding("R-UNITS", f"{name} undefined", f"custom unit {name} is no longer defined", rel))
+            continue
+        rhs, ln = defs[name]
+        first = rhs.split("=")[0].strip()
+        m = re.fullmatch(r"\[(\w+)\]", first)
+        if name in ("cpu_core", "gpu"):
+            if not m:
+                res.findings.append(Finding(
+                    "R-UNITS", f"{name} has no dimension of its own",
+                    f"custom unit `{name}` is defined as `{first}` instead of its own base dimension `[{name}]`: "
+                    f"quantities in {name} become commensurable with `{first.split()[-1]}` and arithmetic that must raise "
+                    f"(cpu cores + gpus) silently yields a number", rel, ln))
+            else:
+                if m.group(1) in dims:
+                    res.findings.append(Finding("R-UNITS", f"{name} shares dimension [{m.group(1)}]",
+                                                f"`{name}` and `{dims[m.group(1)]}` share the base dimension "
+                                                f"[{m.group(1)}]", rel, ln))
+                dims[m.group(1)] = name
+        if len(res.samples) < 4:
+            res.samples.append({"unit": name, "definition": rhs})
+    res.floor = 2
     return res
